@@ -56,7 +56,8 @@ HdrViol(ev) ==
    \cup (IF (ev.hinv = 0) # acc THEN {"C09 header predicate"} ELSE {})
    \cup (IF ev.mrc = 0 /\ acc /\ (MdOf(ev).idx # view.idx \/ MdOf(ev).size # view.size \/ MdOf(ev).bms # view.bms
                                    \/ MdOf(ev).orig # view.orig \/ MdOf(ev).ck # view.ck \/ MdOf(ev).beid # view.beid
-                                   \/ MdOf(ev).bever # view.bever)
+                                   \/ MdOf(ev).bever # view.bever
+                                   \/ (Has(ev, "md_cks") /\ [i \in 1..8 |-> Tup(ev.md_cks[i])] # CksView(h)))
          THEN {IF host THEN "C10 metadata fields differ from the header" ELSE "C11 opposite-endian fields read with a different meaning"} ELSE {})
    \cup (IF ev.mrc = 0 /\ acc /\ MdOf(ev).ct # view.ct
          THEN {IF host THEN "C10 checksum type differs from the header" ELSE "C11 opposite-endian checksum type read with a different meaning"} ELSE {})
